@@ -136,6 +136,8 @@ def bounded(chk, seed, thorough):
     files += [("gen.c", P.conforming_c(rnd, 2)), ("gen.h", P.conforming_h()),
               ("fatal_if.c", "#if (1\nint\tmain(void)\n{\n\treturn (0);\n}\n"),
               ("fatal.c", "int\tmain(void)\n{\n\treturn (0);\n}\n]\n"),
+              ("fatal_nest.c", "int\tmain(void)\n{\n\tft_f((1);\n}\n"),
+              ("fatal_pending.c", "int\tmain(void)\n{\n\t) (\n}\n"),
               ("nested_if.c", "#if " + "(" * 40 + "1" + ")" * 40 + "\n#endif\n"),
               ("deep_expr.c", "int\tmain(void)\n{\n\treturn (" + "(" * 150 + "1" + ")" * 150 + ");\n}\n")]
     t0 = time.time()
@@ -170,7 +172,7 @@ def run(tier, seed, replay):
 
     # 1. writes-frame
     t0 = time.time()
-    writes = scan.global_writes(chk.repo)
+    writes = scan.global_writes(chk.repo) + scan.long_lived_writes(chk.repo)
     keys = {(w["where"], w["what"]) for w in writes}
     unjust = sorted(k for k in keys if k not in JUSTIFIED_WRITES)
     for k in sorted(keys):
